@@ -250,14 +250,13 @@ fn sub_edge_ids(input: &[u8], st: &mut Stats) -> R {
     with_edge_ids(|| sub_modules(input, st))
 }
 
-fn sub_modules(input: &[u8], st: &mut Stats) -> R {
-    let mut cs = Cs::new(input);
+fn gen_case(cs: &mut Cs) -> (Vec<u32>, Vec<Plan>) {
     let mode = match cs.below(8) {
         0 => ModMode::Ordered,
         1 | 2 => ModMode::Interleaved,
         _ => ModMode::Wild,
     };
-    let m = gen_module(&mut cs, mode, 40);
+    let m = gen_module(cs, mode, 40);
     let mut plans = m.plans.clone();
     // structural faults: delete / duplicate / swap an instruction
     let nf = cs.below(3);
@@ -285,9 +284,100 @@ fn sub_modules(input: &[u8], st: &mut Stats) -> R {
     for p in &plans {
         words.extend(p.words());
     }
-    check_words(&words, st, &|| {
-        plans.iter().map(|p| show_inst(&p.inst())).collect::<Vec<_>>().join("\n")
-    })
+    (words, plans)
+}
+
+
+fn sub_modules(input: &[u8], st: &mut Stats) -> R {
+    let mut cs = Cs::new(input);
+    let (words, plans) = gen_case(&mut cs);
+    check_words(&words, st, &|| plans.iter().map(|p| show_inst(&p.inst())).collect::<Vec<_>>().join("\n"))
+}
+
+/// "Loading" through every public route must give one verdict: dr::load_bytes, dr::load_words,
+/// a caller-owned Loader (Loader::new() and Loader::default()) driven by parse_bytes /
+/// parse_words, and a Loader fed by hand through its Consumer methods with the instructions a
+/// collecting consumer received
+fn sub_entry_points(input: &[u8], st: &mut Stats) -> R {
+    use rspirv::binary::{Consumer, ParseAction};
+    let mut cs = Cs::new(input);
+    let (words, plans) = gen_case(&mut cs);
+    let bytes = words_to_bytes(&words);
+    let dec = || plans.iter().map(|p| show_inst(&p.inst())).collect::<Vec<_>>().join("\n");
+    let verdict = |r: &Result<dr::Module, ParseState>| -> String {
+        match r {
+            Ok(_) => "Ok".to_string(),
+            Err(ParseState::ConsumerError(b)) => match b.downcast_ref::<dr::Error>() {
+                Some(e) => format!("{:?}", e).split('(').next().unwrap_or("").to_string(),
+                None => "ConsumerError(other)".into(),
+            },
+            Err(e) => state_name(e),
+        }
+    };
+    let base = load_bytes(&bytes).map_err(|f| f.with_decoded(dec()))?;
+    let mut routes: Vec<(&str, Result<dr::Module, ParseState>)> = vec![];
+    routes.push(("load_words", load_words(&words).map_err(|f| f.with_decoded(dec()))?));
+    let via = |ld: dr::Loader, by_words: bool| -> Result<Result<dr::Module, ParseState>, Fail> {
+        no_panic("parse with a caller-owned Loader", || {
+            let mut ld = ld;
+            let r = if by_words { rspirv::binary::parse_words(&words, &mut ld) } else { rspirv::binary::parse_bytes(&bytes, &mut ld) };
+            r.map(|_| ld.module())
+        })
+    };
+    routes.push(("parse_bytes + Loader::new()", via(dr::Loader::new(), false).map_err(|f| f.with_decoded(dec()))?));
+    routes.push(("parse_words + Loader::new()", via(dr::Loader::new(), true).map_err(|f| f.with_decoded(dec()))?));
+    routes.push(("parse_bytes + Loader::default()", via(dr::Loader::default(), false).map_err(|f| f.with_decoded(dec()))?));
+    routes.push(("parse_words + Loader::default()", via(dr::Loader::default(), true).map_err(|f| f.with_decoded(dec()))?));
+    // by hand: only when the binary parses (otherwise the parser's error is the verdict)
+    let (c, pr) = parse_words_collect(&words).map_err(|f| f.with_decoded(dec()))?;
+    if pr.is_ok() && c.headers.len() == 1 {
+        for (name, mk) in [("hand-fed Loader::new()", dr::Loader::new as fn() -> dr::Loader), ("hand-fed Loader::default()", dr::Loader::default as fn() -> dr::Loader)] {
+            let r = no_panic("Loader fed through Consumer methods", || {
+                let mut ld = mk();
+                let mut act = ld.initialize();
+                if matches!(act, ParseAction::Continue) {
+                    act = ld.consume_header(c.headers[0].clone());
+                }
+                for i in &c.insts {
+                    if !matches!(act, ParseAction::Continue) {
+                        break;
+                    }
+                    act = ld.consume_instruction(i.clone());
+                }
+                if matches!(act, ParseAction::Continue) {
+                    act = ld.finalize();
+                }
+                match act {
+                    ParseAction::Continue => Ok(ld.module()),
+                    ParseAction::Stop => Err(ParseState::ConsumerStopRequested),
+                    ParseAction::Error(e) => Err(ParseState::ConsumerError(e)),
+                }
+            })
+            .map_err(|f| f.with_decoded(dec()))?;
+            routes.push((name, r));
+        }
+        st.count("hand_fed");
+    }
+    let vb = verdict(&base);
+    for (name, r) in &routes {
+        let v = verdict(r);
+        let same = v == vb
+            && match (&base, r) {
+                (Ok(a), Ok(b)) => module_diff(a, b).is_none(),
+                _ => true,
+            };
+        if !same {
+            return Err(Fail::new(
+                "loading-routes-disagree",
+                format!("{}:{}-vs-{}", name, v, vb),
+                format!("dr::load_bytes gives {}, {} gives {}{}", vb, name, v, if v == vb { " (different modules)" } else { "" }),
+            )
+            .with_decoded(dec()));
+        }
+    }
+    st.count(&format!("routes_verdict_{}", vb));
+    st.nontrivial(hash_words(&words));
+    Ok(())
 }
 
 /// Every sweep instruction in its minimal context (module-level classes, every opcode).
@@ -337,6 +427,7 @@ pub const SUBS: &[Sub] = &[
     Sub { name: "alphabet", f: sub_alphabet },
     Sub { name: "modules", f: sub_modules },
     Sub { name: "edge-ids", f: sub_edge_ids },
+    Sub { name: "entry-points", f: sub_entry_points },
 ];
 
 pub fn run(ctx: &Ctx) {
@@ -346,6 +437,7 @@ pub fn run(ctx: &Ctx) {
     drive_enum(ctx, &SUBS[1], alphabet_size(max_len));
     drive_random(ctx, &SUBS[2], ctx.n(40_000, 20_000_000), 1600);
     drive_random(ctx, &SUBS[3], ctx.n(8_000, 4_000_000), 4000);
+    drive_random(ctx, &SUBS[4], ctx.n(10_000, 5_000_000), 1600);
     if !ctx.quick() && !ctx.failed() {
         crate::fuzzing::drive_fuzz(ctx, "modules", 200000);
     }
@@ -355,7 +447,7 @@ pub fn finish(ctx: &Ctx) -> i32 {
     crate::engine::finish(
         ctx,
         Finish {
-            rule: "cases: (a) every core opcode (min and max form) in four contexts: minimal well-bracketed wrapper, bare at module scope, inside an open block, inside a function outside any block; (b) ALL words up to length 5 (thorough: 6) over the 12-letter structural alphabet {function, end, parameter, label, terminator, block instruction, variable, undef, line, type, capability, decoration}; (c) generated modules with up to two structural faults (instruction deleted / duplicated / swapped). Oracle: layout automaton R2 (hand-written instruction classes): load_words is Ok iff R2 accepts; on Err the dr::Error class of the first offending instruction; on Ok a field-by-field comparison with the model module (sections, functions, blocks, order) plus def/end/label/terminator invariants. non-trivial = stream with a function and >= 4 instructions; distinct = hash of the words.",
+            rule: "cases: (a) every core opcode (min and max form) in four contexts: minimal well-bracketed wrapper, bare at module scope, inside an open block, inside a function outside any block; (b) ALL words up to length 5 (thorough: 6) over the 12-letter structural alphabet {function, end, parameter, label, terminator, block instruction, variable, undef, line, type, capability, decoration}; (c) generated modules with up to two structural faults (instruction deleted / duplicated / swapped). Oracle: layout automaton R2 (hand-written instruction classes): load_words is Ok iff R2 accepts; on Err the dr::Error class of the first offending instruction; on Ok a field-by-field comparison with the model module (sections, functions, blocks, order) plus def/end/label/terminator invariants. non-trivial = stream with a function and >= 4 instructions; distinct = hash of the words. `entry-points`: the verdict (and, on success, the module) must be the same through dr::load_bytes, dr::load_words, parse_bytes / parse_words driving a caller-owned Loader::new() or Loader::default(), and a Loader fed by hand through its Consumer methods.",
             assumptions: vec![
                 "context-dependent or vendor-specified module-scope opcodes (vendor OpType*/OpConstant* outside the documented classes, module-scope OpExtInst etc.) are outside the claim and skipped (counted)".into(),
                 "at end of stream with a block open either UnclosedBlock or UnclosedFunction is admissible".into(),
